@@ -721,6 +721,32 @@ func (g *gen) harnessUnknown(prop string, m *Message) {
 	g.p("\tvh%s_%s(x%s)", prop, n, extraArg(prop, "vhPrefix()"))
 	g.p("}")
 	g.p("")
+	g.p("// unknown fields together with every known field (incl. a selected oneof member) populated")
+	g.p("func VH_%s_%s_unknownFields_h2() {", prop, n)
+	g.p("\tx := &%s{}", n)
+	g.p("\tvhFill_%s(x)", n)
+	g.p("\tx.unknownFields = []byte{0x80, 0xa4, 0x3c, 0x07, 0xfa, 0xff, 0xff, 0xff, 0x0f, 0x01, 0x7a} // field 123456 varint 7; field 536870911 bytes \"z\"")
+	g.p("\tvh%s_%s(x%s)", prop, n, extraArg(prop, "nil"))
+	g.p("}")
+	g.p("")
+	if prop == "C04" || prop == "C02" {
+		for _, f := range m.All {
+			if f.Card != "repeated" || !f.Packed || !isPackable(f) {
+				continue
+			}
+			g.p("// long packed runs: the payload length needs a 2-byte varint (elements are fixed values)")
+			g.p("func VH_%s_%s_%s_long() {", prop, n, f.GoName)
+			g.p("\tvhSetLoopBound(400)")
+			g.p("\tx := &%s{}", n)
+			g.p("\tcnt := 127 + vhChoice(\"n\", 3)")
+			g.p("\tfor i := 0; i < cnt; i++ {")
+			g.p("\t\tx.%s = append(x.%s, %s)", f.GoName, f.GoName, g.concExpr(f, 1))
+			g.p("\t}")
+			g.p("\tvh%s_%s(x%s)", prop, n, extraArg(prop, "nil"))
+			g.p("}")
+			g.p("")
+		}
+	}
 	if prop == "C04" {
 		g.p("// every caller-buffer shape, on a message with every field populated")
 		g.p("func VH_C04_%s_prefix() {", n)
